@@ -56,6 +56,9 @@ func (c c04Cfg) String() string {
 
 var c04EarlyRe = regexp.MustCompile(`too early by (-?\d+)ms`)
 
+// before availabilityStartTime the message is worded "<n>ms too early"
+var c04PreRe = regexp.MustCompile(`(?:too early by (-?\d+)ms|(-?\d+)ms too early)`)
+
 // c04Times returns the segment name and the exact availability bounds (ms, absolute) of segment n:
 // lo = instant from which 200 is allowed, hi = instant from which 200 is required.
 func c04Times(a *vref.VAsset, r *vref.VRep, c c04Cfg, n int64) (name string, lo, hi int64) {
@@ -371,6 +374,13 @@ func c04RunCfg(rep *vh.Report, c c04Cfg, W int64, quick bool) {
 				rep.Hit("C04.pre")
 				if resp.Code != 425 {
 					viol("C04.pre", fmt.Sprintf("before-AST-%d", resp.Code), fmt.Sprintf("status %d before availabilityStartTime", resp.Code))
+				} else if m := c04PreRe.FindSubmatch(resp.Body); m != nil {
+					// before the stream exists the body may count down to the stream start or to the segment itself
+					rep.Hit("C04.body")
+					got, _ := strconv.ParseInt(string(m[1])+string(m[2]), 10, 64)
+					if got < ast-t-1 || got > hi-t {
+						viol("C04.body", "remaining-ms:before-AST", fmt.Sprintf("425 body says %d ms; the stream starts in %d ms, the segment is available in %d ms", got, ast-t, hi-t))
+					}
 				}
 			case t < lo:
 				rep.Hit("C04.early")
